@@ -41,6 +41,9 @@ fn main() {
                 k => vh::dispatch::replay(k, &lines, seed),
             };
             std::fs::write(&a[4], serde_json::to_string_pretty(&rep.to_json()).unwrap()).unwrap();
+            if hung() {
+                std::process::exit(0);
+            }
         }
         "replay-arb" => {
             let lines = read_lines(&a[2]);
@@ -78,6 +81,9 @@ fn main() {
             match nontrivial {
                 Some(k) => println!("{}", json!({"events": n, "nontrivial": k})),
                 None => println!("{}", json!({"events": n})),
+            }
+            if hung() {
+                std::process::exit(0);
             }
         }
         "explore" => {
